@@ -161,6 +161,36 @@ pub(crate) fn k_hdr_build_vs_rfc() {
     kani::cover!(s.number_bytes == 7, "7-byte number reachable");
 }
 
+// contract (C17: a parsed header is re-serialised unchanged, also when its block size uses a longer coding than necessary):
+//   FrameHeader::build of a header whose block size is Uncommon8(n) / Uncommon16(n), for every n the variant can hold, writes the
+//   4-bit code of that variant followed by n - 1 in a field of that variant's width (8 / 16 bits) -- the width never depends on n
+#[kani::proof]
+#[kani::unwind(8)]
+pub(crate) fn k_hdr_build_uncommon_block_size() {
+    let wide: bool = kani::any();
+    let n: u16 = kani::any();
+    kani::assume(n >= 1 && (wide || n <= 256));
+    let num: u64 = kani::any();
+    kani::assume(num < (1 << 36));
+    let h = FrameHeader {
+        blocking_strategy: kani::any(),
+        block_size: if wide { BlockSize::Uncommon16(n) } else { BlockSize::Uncommon8(n) },
+        sample_rate: SampleRate::try_from(44100u32).unwrap(),
+        channel_assignment: any_channel_assignment(),
+        bits_per_sample: BitsPerSample::from(SignedBitCount::<32>::try_from(16u32).unwrap()),
+        frame_number: FrameNumber(num),
+    };
+    let mut b: BitBuf<2> = BitBuf::empty();
+    let r = h.build(&mut b);
+    vk_assert!(r.is_ok(), "building a header with an uncommon block size failed");
+    let written = b.len;
+    b.len = 128;
+    let (v, s) = spechdr::spec_parse(&b);
+    vk_assert!(v == V::Valid, "built header is not a valid RFC 9639 9.1 header");
+    vk_assert!(s.bs_code == if wide { 7 } else { 6 }, "the block-size code is the one of the variant that was parsed (8-bit or 16-bit field), whatever the value");
+    vk_assert!(s.block_size == n as u32 && s.bits == written + 8, "the block size field has the width its code announces and holds n - 1");
+}
+
 // ------------------------------------------------------------------ CRC-8 gate, modular
 //
 // FrameHeader::read / read_subset / write / write_subset wrap the field codec in a CRC-8 reader or
